@@ -120,6 +120,8 @@ pub struct Ctx {
     pub stats: RefCell<Stats>,
     pub known: Vec<KnownFinding>,
     pub max_samples: usize,
+    /// where the worker's (partial) result file goes; None outside a worker
+    pub result_path: Option<PathBuf>,
 }
 
 pub fn fnv(data: &[u8]) -> u64 {
@@ -152,6 +154,7 @@ impl Ctx {
             stats: RefCell::new(Stats::default()),
             known: load_known(),
             max_samples: 6,
+            result_path: None,
         }
     }
     pub fn sub_seed(&self, name: &str) -> u64 {
@@ -197,16 +200,37 @@ impl Ctx {
     }
 
     pub fn add_failure(&self, engine: &str, case: Value, f: &Fail) {
-        let mut st = self.stats.borrow_mut();
-        if st.failures.iter().any(|x| x.signature == f.signature) {
-            return;
+        {
+            let mut st = self.stats.borrow_mut();
+            if st.failures.iter().any(|x| x.signature == f.signature) {
+                return;
+            }
+            st.failures.push(Failure {
+                signature: f.signature.clone(),
+                detail: f.detail.clone(),
+                engine: engine.to_string(),
+                case,
+            });
         }
-        st.failures.push(Failure {
-            signature: f.signature.clone(),
-            detail: f.detail.clone(),
-            engine: engine.to_string(),
-            case,
-        });
+        // a failure must survive whatever happens to this worker afterwards
+        self.checkpoint();
+    }
+
+    pub fn has_failure(&self) -> bool {
+        !self.stats.borrow().failures.is_empty()
+    }
+
+    /// Write the statistics gathered so far to the worker's result file.
+    pub fn checkpoint(&self) {
+        if let Some(p) = &self.result_path {
+            let st = self.stats.borrow();
+            if let Ok(js) = serde_json::to_vec(&*st) {
+                let tmp = p.with_extension("json.tmp");
+                if std::fs::write(&tmp, js).is_ok() {
+                    let _ = std::fs::rename(&tmp, p);
+                }
+            }
+        }
     }
 
     /// Enumerated / hand-driven case: run, record, and register failure (no shrinking).
@@ -231,6 +255,11 @@ impl Ctx {
         S::Value: Serialize + Debug + Clone,
         F: Fn(&S::Value, &mut CaseReport) -> CaseResult,
     {
+        if self.has_failure() {
+            // an earlier stage of this worker already found a violation: report
+            // that one rather than risk it in a later stage
+            return;
+        }
         let seed = self.sub_seed(name);
         let mut seed_bytes = [0u8; 32];
         for i in 0..4 {
@@ -418,7 +447,8 @@ pub fn spin_guard_case(s: Option<&[u8]>) {
 pub fn worker_main(def: &PropDef, tier: Tier, seed: u64, idx: usize, n: usize, scratch: &Path) -> i32 {
     let wscratch = scratch.join(format!("w{}", idx));
     std::fs::create_dir_all(&wscratch).ok();
-    let ctx = Ctx::new(def.id, tier, seed, idx, n, wscratch.clone());
+    let mut ctx = Ctx::new(def.id, tier, seed, idx, n, wscratch.clone());
+    ctx.result_path = Some(scratch.join(format!("w{}.json", idx)));
     spin_guard_install(scratch, idx);
     (def.worker)(&ctx);
     let st = ctx.stats.into_inner();
